@@ -898,9 +898,9 @@ class PolyhedralTermList(TermList):  # noqa: WPS338
         """
         obj = PolyhedralTermList([PolyhedralTerm(variables=objective, constant=0)])
         self = self._without_variable_free_terms()  # noqa: WPS440 raises ValueError if one of them is unsatisfiable
-        if self.lacks_constraints() and obj.vars:
-            # nothing bounds the objective
-            return None
+        if self.lacks_constraints():
+            # nothing bounds the objective; the zero objective is 0 everywhere
+            return None if obj.vars else 0.0
         _, self_mat, self_cons, obj_mat, _ = PolyhedralTermList.termlist_to_polytope(self, obj)  # noqa: WPS236
         polarity = 1
         if maximize:
